@@ -24,7 +24,12 @@ import vlib
 from props import routerlib as RL
 
 COQ_FILES = ["Plugin/Model.v", "Plugin/Spec.v", "Plugin/Proofs.v", "Plugin/Props.v"]
-PRE = "From PV Require Import Plugin.Model Plugin.Spec.\nFrom Coq Require Import ZArith NArith List Bool. Import ListNotations."
+PRE = ("From PV Require Import Plugin.Model Plugin.Spec.\nFrom Coq Require Import ZArith NArith List Bool. Import ListNotations.\n"
+       "Definition pv_eqb (a b : pverdict) : bool := match a, b with PAllow, PAllow => true | PPanic, PPanic => true "
+       "| PDeny x, PDeny y => bytes_eqb x y | PIntercept x, PIntercept y => bytes_eqb x y | _, _ => false end.\n"
+       "Definition pv_kind (a : pverdict) : nat := match a with PAllow => 0 | PDeny _ => 1 | PIntercept _ => 2 | PPanic => 3 end.")
+# NOTE: vlib.coq_eval does not drain the coqc pipes while polling: keep the printed output of one shard well below
+# the 64 KiB pipe buffer (small shards, and let Coq compare long byte strings instead of printing them).
 
 # Defects confirmed on the current tree (reported; printed as KNOWN-FINDING, never silently skipped).
 KNOWN = {
@@ -39,6 +44,8 @@ KNOWN = {
     "ps_cache": "C19-ps-cache-replay (model, needs wire confirmation): with prepared-statement caching, Parse(s1, denied) Sync registers s1 in the client map before the "
                 "verdict is enforced; Bind(s1) Execute Sync makes pgcat send the cached Parse and run it",
     "stale": "C19-stale-intercept (model, needs wire confirmation): a failed checkout at Sync clears the batch but keeps an Intercept verdict; the next unrelated batch is answered with the old rows",
+    "maxlen": "C19-parser-max-length: with query_parser_max_length set, a message longer than the limit is never parsed, so no plugin runs and it is forwarded: "
+              "'SELECT * FROM secret' padded with blanks beyond the limit passes table_access",
     "schema_panic": "C19-intercept-schema-panic: an intercept rule whose schema has an entry with fewer than two strings panics the client task when its query matches (row[1])",
 }
 
@@ -254,7 +261,7 @@ def check_tables(run, bins, cases, tag, st):
         exprs.append("(ta_verdict %s %s %s %s, map (matches %s) %s)" % (en, coq_blist(c["listed"]), coq_names(c["explicit"]), coq_names(c["visited"]),
                                                                         coq_blist(c["listed"]), coq_names(c["labels"])))
         idx.append(k)
-    vals = vlib.coq_eval("c19_" + tag, PRE, exprs)
+    vals = vlib.coq_eval("c19_" + tag, PRE, exprs, shard=60)
     evals = 0
     for k, v in zip(idx, vals):
         c = cases[k]
@@ -320,6 +327,34 @@ def check_tables(run, bins, cases, tag, st):
         if expect_deny:
             st["denied"] += 1
     return evals
+
+
+def check_maxlen(run, bins, st):
+    """query_parser_max_length: the same denied statement below and above the limit"""
+    pl = {"table_access": {"enabled": True, "tables": ["secret"]}, "intercept": None, "query_logger": None, "prewarmer": None}
+    cases, meta = [], []
+    for limit in (40, 64, 200):
+        for sql in ("SELECT * FROM secret", "DELETE FROM secret WHERE id = 1", "COPY secret TO STDOUT"):
+            for pad in (0, limit, 3 * limit):
+                for proto in ("Q", "P"):
+                    text = sql + " " * pad
+                    cases.append({"settings": {"parser": True, "parser_max_length": limit, "plugins": pl}, "steps": [{"op": "route", "proto": proto, "sql": text}]})
+                    meta.append((limit, text, proto))
+    n = 0
+    for (limit, text, proto), r in zip(meta, RL.run_router(bins["router"], cases)):
+        o = r["out"][0]
+        n += 1
+        st["distinct"].add(("maxlen", limit, text, proto))
+        if o.get("parse") == "ok" and o["plugin"][0] == "deny":
+            continue
+        if o.get("parse") == "err" and len(text) + 5 > limit:
+            st["known"]["maxlen"] = st["known"].get("maxlen", 0) + 1
+            run.known_finding(KNOWN["maxlen"] + " [e.g. limit %d, %d-byte message]" % (limit, len(text) + 5), key="maxlen")
+            continue
+        run.violation("counterexample", "table_access does not deny %r (query_parser_max_length=%d): %s" % (text, limit, o),
+                      {"input": {"sql": text, "proto": proto, "parser_max_length": limit, "plugins": pl}, "impl": o.get("plugin"), "expected": "deny"})
+        break
+    return n
 
 
 # ----------------------------------------------------------------------------- intercept
@@ -495,28 +530,30 @@ def check_intercept(run, bins, cases, st):
         c["norms"] = [bytes.fromhex(s["norm"]) for s in po["stmts"]]
         stm = "; ".join("mkStmt %s %s %s" % (vlib.coq_bytes(bytes.fromhex(s["norm"])), coq_names(names_from_json(s["explicit"])), coq_names(names_from_json(s["visited"])))
                         for s in po["stmts"])
-        exprs.append("execute_plugins %s %s %s [%s]" % (coq_pcfg(c["plugins"]), vlib.coq_bytes(c["user"].encode()), vlib.coq_bytes(c["db"].encode()), stm))
+        real = c["real"]
+        rv = {"allow": "PAllow", "panic": "PPanic"}.get(real[0]) or ("(%s %s)" % ("PDeny" if real[0] == "deny" else "PIntercept", vlib.coq_bytes(bytes.fromhex(real[1]))))
+        c["expr"] = "execute_plugins %s %s %s [%s]" % (coq_pcfg(c["plugins"]), vlib.coq_bytes(c["user"].encode()), vlib.coq_bytes(c["db"].encode()), stm)
+        exprs.append("let m := %s in (pv_eqb m %s, pv_kind m)" % (c["expr"], rv))
         idx.append(k)
-    vals = vlib.coq_eval("c19_icpt", PRE, exprs, shard=60)
+    vals = vlib.coq_eval("c19_icpt", PRE, exprs, shard=40)
     evals = 0
     for k, v in zip(idx, vals):
         c = cases[k]
-        mv = vlib.parse_coq(v)
+        same, kind = vlib.parse_coq(v)
         evals += 1
         run.cov["traces_validated_against_impl"] += 1
         inp = {"sql": c["sql"], "proto": c["proto"], "plugins": c["plugins"], "user": c["user"], "db": c["db"]}
         real = c["real"]
-        if mv == "PAllow":
-            model = ["allow"]
-        elif mv == "PPanic":
-            model = ["panic"]
-        elif mv[0] == "PDeny":
-            model = ["deny", obytes(mv[1]).hex()]
-        else:
-            model = ["intercept", obytes(mv[1]).hex()]
+        if real[0] == "deny":
+            real = ["deny", real[1]]
+        model = [["allow", "deny", "intercept", "panic"][kind]]
         st["icpt_kinds"][model[0]] = st["icpt_kinds"].get(model[0], 0) + 1
         st["distinct"].add(("icpt", c["sql"], json.dumps(c["plugins"], sort_keys=True), c["user"], c["db"]))
-        if model != real:
+        if not same:
+            try:    # print the model's value for the replay file (one value: small output)
+                model = [model[0], vlib.coq_eval("c19_icpt1", PRE, [c["expr"]])[0][:20000]]
+            except Exception as ex:
+                model = [model[0], "?"]
             run.violation("tie-broken", "execute_plugins model and implementation disagree on %r: model %s, impl %s" % (c["sql"], model[0], real[0]),
                           {"correspondence": "Plugin/Model.v execute_plugins vs QueryRouter::execute_plugins", "input": inp, "model": model, "impl": real}, found_input=False)
             return evals
@@ -546,6 +583,8 @@ def check_intercept(run, bins, cases, st):
 def gen_sequence(rng, maxlen=9):
     """abstract message sequence for coq/Plugin/Model.v (and, rendered by wire_script, for the wire harness)"""
     cfg = {"parser_on": rng.random() < 0.85, "plugins_on": rng.random() < 0.85, "ps_on": rng.random() < 0.35, "txn_mode": rng.random() < 0.8}
+    if cfg["ps_on"]:
+        cfg["txn_mode"] = True      # prepared_statements_enabled = transaction mode && cache size > 0 (client.rs startup)
     ops, nid = [], 0
     names_defined = set()
 
@@ -665,11 +704,36 @@ def wire_script(cfg, ops):
     return {"pool": pool, "messages": msgs}
 
 
+A, T, F = ("Allow",), True, False
+STD = {"parser_on": T, "plugins_on": T, "ps_on": F, "txn_mode": T}
+PSC = dict(STD, ps_on=T)
+# boundary sequences, always first: the repaired overwrite, every position of a rejected Parse in a batch, Q inside a
+# transaction, pending verdict consumed by a Q, and the two reported gaps (witnesses of c19_ps_cache_refuted /
+# c19_stale_intercept_refuted) — the first things to try on the wire
+FIXED = [
+    (STD, [("MP", 1, 0, 7, T, ("Deny", 1)), ("MP", 2, 0, 8, T, A), ("MB", 3, 0), ("ME", 4), ("MS", 5, T, F)]),
+    (STD, [("MP", 1, 0, 8, T, A), ("MB", 2, 0), ("ME", 3), ("MP", 4, 0, 7, T, ("Deny", 4)), ("MB", 5, 0), ("ME", 6), ("MS", 7, T, F)]),
+    (STD, [("MP", 1, 0, 7, T, ("Intercept", 1)), ("MB", 2, 0), ("ME", 3), ("MS", 4, T, F)]),
+    (STD, [("MP", 1, 0, 7, T, ("Intercept", 1)), ("MP", 2, 0, 8, T, ("Deny", 2)), ("MB", 3, 0), ("ME", 4), ("MS", 5, T, F)]),
+    (STD, [("MQ", 1, T, A, T, T), ("MQ", 2, T, ("Deny", 2), T, T), ("MP", 3, 0, 7, T, ("Deny", 3)), ("MB", 4, 0), ("ME", 5), ("MS", 6, T, T), ("MQ", 7, T, A, T, F)]),
+    (STD, [("MP", 1, 0, 7, T, ("Deny", 1)), ("MB", 2, 0), ("ME", 3), ("MQ", 4, T, A, T, F), ("MS", 5, T, F)]),
+    (STD, [("MQ", 1, T, A, T, T), ("MP", 2, 0, 7, T, ("Deny", 2)), ("MB", 3, 0), ("MQ", 4, T, A, T, F), ("MS", 5, T, F)]),
+    (STD, [("MQ", 1, T, ("Intercept", 1), T, F), ("MQ", 2, T, ("Deny", 2), T, F), ("MQ", 3, F, ("Deny", 3), T, F)]),
+    (dict(STD, plugins_on=F), [("MQ", 1, T, ("Deny", 1), T, F), ("MP", 2, 0, 7, T, ("Intercept", 2)), ("MB", 3, 0), ("ME", 4), ("MS", 5, T, F)]),
+    (dict(STD, parser_on=F), [("MQ", 1, T, ("Deny", 1), T, F), ("MP", 2, 0, 7, T, ("Deny", 2)), ("MB", 3, 0), ("ME", 4), ("MS", 5, T, F)]),
+    (PSC, [("MP", 1, 1, 7, T, ("Deny", 1)), ("MS", 2, T, F), ("MB", 3, 1), ("ME", 4), ("MS", 5, T, F)]),
+    (PSC, [("MP", 1, 0, 7, T, ("Deny", 1)), ("MS", 2, T, F), ("MB", 3, 0), ("ME", 4), ("MS", 5, T, F)]),
+    (PSC, [("MP", 1, 1, 7, T, ("Deny", 1)), ("MS", 2, T, F), ("MD", 3, T, 1), ("MS", 4, T, F)]),
+    (STD, [("MP", 1, 0, 7, T, ("Intercept", 1)), ("MS", 2, F, F), ("MP", 3, 0, 8, T, A), ("MB", 4, 0), ("ME", 5), ("MS", 6, T, F)]),
+]
+
+
 def sequences_with_expected(rng, n, tag="seq"):
-    """yield dicts {cfg, ops, wire, expected_events} — expected events computed by the Coq model (vm_compute)."""
-    seqs = [gen_sequence(rng) for _ in range(n)]
+    """dicts {cfg, ops, wire, expected_events}: the boundary sequences FIXED, then n random ones; expected events
+    computed by the Coq model (vm_compute)."""
+    seqs = [(dict(c), list(o)) for c, o in FIXED] + [gen_sequence(rng) for _ in range(n)]
     exprs = ["trace %s [%s]" % (coq_cfg(c), "; ".join(coq_msg(m) for m in ops)) for c, ops in seqs]
-    vals = vlib.coq_eval("c19_" + tag, PRE, exprs, shard=max(20, n // 16 + 1))
+    vals = vlib.coq_eval("c19_" + tag, PRE, exprs, shard=40)
     out = []
     for (c, ops), v in zip(seqs, vals):
         evs = vlib.parse_coq(v)
@@ -755,6 +819,8 @@ def check(run):
         na = gen_table_cases(rng, 250 if quick else 5000, nonascii=True)
         evals += check_tables(run, bins, na, "na", st)
     if not run.violations:
+        evals += check_maxlen(run, bins, st)
+    if not run.violations:
         ic = gen_intercept_cases(rng, 500 if quick else 12000)
         evals += check_intercept(run, bins, ic, st)
         run.log("intercept: %d cases, kinds %s" % (len(ic), st["icpt_kinds"]))
@@ -805,7 +871,8 @@ def replay(run, path):
     if "sql" not in inp:
         return 0
     ok, blog, bins = vlib.cargo_build(["router", "plugins"])
-    case = {"settings": {"parser": True, "plugins": inp.get("plugins"), "user": inp.get("user", "postgres"), "db": inp.get("db", "db")},
+    case = {"settings": {"parser": True, "plugins": inp.get("plugins"), "user": inp.get("user", "postgres"), "db": inp.get("db", "db"),
+                         "parser_max_length": inp.get("parser_max_length")},
             "steps": [{"proto": inp.get("proto", "Q"), "sql": inp["sql"]}]}
     (res,) = RL.run_router(bins["plugins"], [case])
     o = res["out"][0]
